@@ -4,7 +4,8 @@
 //	tubepair <schedules.json> <out.ndjson> <seed>
 //
 // schedules.json: [{"name":..., "drops":[{"dir":0|1,"kind":"data|ack|fin|req|resp","no":N,"times":K}], "dups":[...same, "copies":C],
-//                   "delays":[{"dir","kind","no","ms"}], "lossPct":P, "lossMs":T, "outageAtMs":A, "outageMs":L, "sizes":[...], "both":bool}]
+//
+//	"delays":[{"dir","kind","no","ms"}], "lossPct":P, "lossMs":T, "outageAtMs":A, "outageMs":L, "sizes":[...], "both":bool}]
 package main
 
 import (
@@ -26,28 +27,29 @@ import (
 )
 
 type key struct {
-	Dir   int    `json:"dir"`
-	Kind  string `json:"kind"`
-	No    uint32 `json:"no"`
-	Times int    `json:"times"`
-	Copies int   `json:"copies"`
-	Ms    int    `json:"ms"`
-	DupDelayMs int `json:"dupDelayMs"`
+	Dir        int    `json:"dir"`
+	Kind       string `json:"kind"`
+	No         uint32 `json:"no"`
+	Times      int    `json:"times"`
+	Copies     int    `json:"copies"`
+	Ms         int    `json:"ms"`
+	DupDelayMs int    `json:"dupDelayMs"`
 }
 type sched struct {
-	Name       string `json:"name"`
-	Drops      []key  `json:"drops"`
-	Dups       []key  `json:"dups"`
-	Delays     []key  `json:"delays"`
-	LossPct    int    `json:"lossPct"`
-	LossMs     int    `json:"lossMs"`
-	OutageAtMs int    `json:"outageAtMs"`
-	OutageMs   int    `json:"outageMs"`
-	Sizes      []int  `json:"sizes"`
-	Both       bool   `json:"both"`
-	BoundMs    int    `json:"boundMs"`
-	PauseMs    int    `json:"pauseMs"` // pause between the writer's writes (request/response-like traffic)
-	LateClose  bool   `json:"lateClose"` // the writer stays idle and closes only after the reader has everything (or the deadline)
+	Name        string `json:"name"`
+	Drops       []key  `json:"drops"`
+	Dups        []key  `json:"dups"`
+	Delays      []key  `json:"delays"`
+	LossPct     int    `json:"lossPct"`
+	LossMs      int    `json:"lossMs"`
+	OutageAtMs  int    `json:"outageAtMs"`
+	OutageMs    int    `json:"outageMs"`
+	Sizes       []int  `json:"sizes"`
+	Both        bool   `json:"both"`
+	BoundMs     int    `json:"boundMs"`
+	PauseMs     int    `json:"pauseMs"`     // pause between the writer's writes (request/response-like traffic)
+	LateClose   bool   `json:"lateClose"`   // the writer stays idle and closes only after the reader has everything (or the deadline)
+	DupAckEvery int    `json:"dupAckEvery"` // every n-th acknowledgement frame (either direction) is delivered twice, for the whole life of the tube
 }
 
 func gen(off int64, n int, tag byte) []byte {
@@ -151,6 +153,7 @@ func run(id int, s sched, seed int64) {
 		return nil
 	}
 	faults := 0
+	ackSeen := 0
 	policy := func(f *scriptconn.Frame) scriptconn.Action {
 		mu.Lock()
 		defer mu.Unlock()
@@ -164,6 +167,12 @@ func run(id int, s sched, seed int64) {
 		}
 		if k := match(s.Delays, f); k != nil && f.Nth == 1 {
 			a.Delay = time.Duration(k.Ms) * time.Millisecond
+		}
+		if s.DupAckEvery > 0 && f.Kind() == "ack" {
+			ackSeen++
+			if ackSeen%s.DupAckEvery == 0 {
+				a.Dups = 1
+			}
 		}
 		if s.LossPct > 0 && time.Since(start) < time.Duration(s.LossMs)*time.Millisecond && rng.Intn(100) < s.LossPct {
 			a.Drop = true
